@@ -6,6 +6,8 @@ package prolog
 
 import (
 	"context"
+	"errors"
+	"io/fs"
 	"time"
 )
 
@@ -86,7 +88,27 @@ var c13Programs = []struct {
 	{"atom-length-loop", "", 0, "repeat, atom_length(abc, N), N < 0."},
 	{"bagof-loop", "", 0, "bagof(X, (repeat, fail), L)."},
 	{"sort-loop", "", 0, "repeat, sort([c, b, a], L), L = []."},
+	// loading a file (in-memory file system) whose directive loops until ready/0 exists; after the cancellation the
+	// same load is repeated with ready/0 defined and must define the file's predicates (kinds 3 and 4)
+	{"consult-file-loop", "", 3, "consult(lib)."},
+	{"ensure-loaded-directive-file-loop", "", 4, ":- ensure_loaded(lib)."},
+	{"consult-list-file-loop", "", 3, "[lib]."},
 }
+
+// c13FS is an in-memory file system (fs.ReadFileFS).
+type c13FS map[string]string
+
+var errC13NoFile = errors.New("c13FS: no such file")
+
+func (f c13FS) Open(name string) (fs.File, error) { return nil, errC13NoFile }
+func (f c13FS) ReadFile(name string) ([]byte, error) {
+	if s, ok := f[name]; ok {
+		return []byte(s), nil
+	}
+	return nil, errC13NoFile
+}
+
+const c13Lib = ":- ( catch(ready, _, fail) -> true ; repeat, fail ).\nanswer(42).\n"
 
 // stepBound: the largest number of executor steps allowed between two polls of ctx.Done() and between the
 // cancellation and the return of the call.
@@ -116,6 +138,12 @@ func H_C13_cancel(inst int) {
 		err = i.ExecContext(ctx, p.text)
 	case 2:
 		err = i.QuerySolutionContext(ctx, p.text).Err()
+	case 3:
+		i.FS = c13FS{"lib.pl": c13Lib}
+		err = i.QuerySolutionContext(ctx, p.text).Err()
+	case 4:
+		i.FS = c13FS{"lib.pl": c13Lib}
+		err = i.ExecContext(ctx, p.text)
 	}
 	verify(ctx.fired, "the call returned before the cancellation although the program never terminates")
 	verify(err == context.Canceled, "the pending call did not return the context's error")
@@ -131,6 +159,17 @@ func H_C13_cancel(inst int) {
 	verify(sols.Scan(m) == nil && m["X"] == interface{}("b"), "the interpreter answers wrongly after a cancelled call")
 	verify(!sols.Next() && sols.Err() == nil, "follow-up query: wrong end")
 	_ = sols.Close()
+	if p.kind >= 3 {
+		// the cancelled load is repeated, now able to finish: it must load the file like a first load does
+		verify(i.Exec("ready.") == nil, "harness: defining ready/0 failed")
+		if p.kind == 3 {
+			verify(i.QuerySolution(p.text).Err() == nil, "repeating a cancelled load failed")
+		} else {
+			verify(i.Exec(p.text) == nil, "repeating a cancelled load failed")
+		}
+		verify(i.QuerySolution("answer(42).").Err() == nil, "after repeating a cancelled load the file's predicates are not defined")
+		reach("c13/reload", true)
+	}
 	reach("c13/cancelled", true)
 }
 
